@@ -341,7 +341,7 @@ def run_srv(pid, tier, seed, replay):
         # rewrite an item: not executed, everything sent before it is
         jobs.append((["tcp-wire", "--profile", "tflip", "--count", 40 if quick else 400, "--seed", seed * 100 + 80, "--seg", "few"], "WireTcpTrace",
                      "tcp-tflip.ndjson", "corrupted header byte in a complete request", ports(20)))
-        required = ["close.all", "halfclose.all", "reset.prefix", "corrupt.all", "silence.all", "cut.closed", "bulky.contained", "closed.odd", "closed.invalid"]
+        required = ["close.all", "halfclose.all", "reset.prefix", "corrupt.all", "silence.all", "cut.closed", "bulky.contained", "silent.hogs.timed.out", "closed.odd", "closed.invalid"]
         run.extra["tlc_generated_cases_replayed"] = ncases
     else:
         raise ToolError("unknown server property " + pid)
@@ -405,7 +405,9 @@ def run_c20(pid, tier, seed, replay):
         args = ["cfg-suite", "--bin", binp, "--runtime", c["runtime"], "--threads", c["threads"], "--policy", c["policy"],
                 "--memory", "512MiB", "--conn-limit", c["conn"], "--item-limit", c["item"], "--count", 3 if quick else 6, "--seed", seed,
                 "--port", ports(i * 3), "--out", prefix]
-        if i < (2 if quick else 6):
+        # the real-time TTL probe (7.5 s): on a current-thread and on a multi-thread configuration (all of the first six in the
+        # thorough tier)
+        if (i in (0, 2)) if quick else (i < 6):
             args.append("--ttl")
         st = harness(args, timeout=600)
         if not st.get("started"):
